@@ -3,7 +3,7 @@
    every descriptor (recursive types included) and every value of the type,
    provided that the interface values nested in it hold accepted dynamic types. *)
 From Coq Require Import List NArith ZArith Bool Lia.
-From Verif Require Import Bytes ShowTree Facts_show ShowTypesM ShowJsonM ShowTree_proofs Show_js_checks.
+From Verif Require Import Bytes ShowTree Facts_show ShowTypesM ShowJsonM ShowLeavesM Json ShowSpecM ShowTree_proofs Show_js_checks.
 Import ListNotations.
 Open Scope N_scope.
 
@@ -463,36 +463,130 @@ Proof.
       destruct (eval_tree (static_val f env (TStruct fl fs) None VT) (node_tree f env (TStruct fl fs))) eqn:Ev; try discriminate Hs; reflexivity.
 Qed.
 
+(* the head of the spec is the one the run time path took *)
+Lemma head_is_sound f t sd h :
+  agrees (dyn_val false (Some t)) sd -> head_is f sd h = true -> head_case f t = h.
+Proof.
+  intros Hag H. unfold head_is in H.
+  assert (Hflag : forall p i b, asg_get sd (AImpl p i) = Some b -> p = PSelf -> flag t i = b).
+  { intros p i b E Hp. subst p. pose proof (agrees_get _ _ _ _ Hag E) as Hv. cbn [dyn_val] in Hv. apply of_bool_inj in Hv. exact Hv. }
+  assert (Hflag2 : forall p i b, asg_get sd (AIs p i) = Some b -> p = PSelf -> flag t i = b).
+  { intros p i b E Hp. subst p. pose proof (agrees_get _ _ _ _ Hag E) as Hv. cbn [dyn_val] in Hv. apply of_bool_inj in Hv. exact Hv. }
+  unfold head_case, trusted_case.
+  destruct f; cbn [head_atoms head_walk] in H;
+    repeat match type of H with
+    | context [match asg_get ?s ?a with _ => _ end] =>
+      let E := fresh "E" in destruct (asg_get s a) as [[|] |] eqn:E; [| | discriminate H];
+      first [apply Hflag in E; [| reflexivity] | apply Hflag2 in E; [| reflexivity]]; rewrite E
+    end;
+    cbn [hcase_eqb] in H; destruct h; try discriminate H; try reflexivity;
+    apply N.eqb_eq in H; subst; reflexivity.
+Qed.
+
+(* the members of a struct, when every exported field is shown with a result in G0 *)
+Lemma struct_members_all L f (G0 : result -> Prop) env t :
+  forall fs vs,
+    Forall2 (fun (p : finfo * ty) (fv : value) =>
+               at_of env t (snd p) fv = true /\
+               (forall e' t', resolve (t :: env) (snd p) = Some (e', t') -> wf_tyb t' = true) /\
+               (f_exported (fst p) = true -> G0 (show_at_with f (show_val L f) (t :: env) (snd p) fv))) fs vs ->
+    exists ms,
+      struct_members (fun fi ft fv =>
+        field_member L fi (match resolve (t :: env) ft with Some (_, t') => Some t' | None => None end) fv
+                     (show_at_with f (show_val L f) (t :: env) ft fv)) fs vs = Some ms /\
+      Forall (fun m : bytes * result => G0 (snd m)) ms.
+Proof.
+  intros fs vs H. induction H as [| [fi ft] fv fs' vs' [Hty [Hwf Hshow]] Hrest IH].
+  - exists []. split; [reflexivity | constructor].
+  - destruct IH as [ms [Hms Hgood]]. cbn [fst snd] in *.
+    cbn [struct_members]. fold (struct_members (fun fi ft fv =>
+        field_member L fi (match resolve (t :: env) ft with Some (_, t') => Some t' | None => None end) fv
+                     (show_at_with f (show_val L f) (t :: env) ft fv))) in *.
+    rewrite Hms.
+    unfold field_member. destruct (f_exported fi) eqn:Hexp; [| exists ms; split; [reflexivity | exact Hgood]].
+    specialize (Hshow eq_refl).
+    destruct (f_tag fi) as [| c tag]; [eexists; split; [reflexivity | constructor; [exact Hshow | exact Hgood]] |].
+    destruct (bytes_eqb (c :: tag) [45]); [exists ms; split; [reflexivity | exact Hgood] |].
+    destruct (parse_tag (c :: tag)) as [tname omit].
+    destruct omit; [| eexists; split; [reflexivity | constructor; [exact Hshow | exact Hgood]]].
+    unfold at_of in Hty. destruct (resolve (t :: env) ft) as [[e' t'] |] eqn:R; [| discriminate Hty].
+    pose proof (is_empty_some L e' t' fv Hty (Hwf e' t' eq_refl)) as Hne.
+    destruct (is_empty L t' fv) as [[|] |]; [exists ms; split; [reflexivity | exact Hgood] | | contradiction].
+    eexists; split; [reflexivity | constructor; [exact Hshow | exact Hgood]].
+Qed.
+
 Section Main.
   Variable L : leaves.
   Variable f : showfn.
 
-  (* the property of results that is established: it must hold of the texts of the
-     leaves and be preserved by the array and object constructions *)
-  Variable G : result -> Prop.
-  Hypothesis Hnull : G (ROk s_null).
-  Hypothesis Hbool : forall b : bool, G (ROk (if b then s_true else s_false)).
-  Hypothesis HZ : forall z, G (ROk (dec_of_Z z)).
-  Hypothesis HN : forall n, G (ROk (dec_of_N n)).
-  Hypothesis Hfloat : forall c x, G (ROk (lf_float L c x)).
-  Hypothesis Hquoted : forall s, G (ROk (quoted L f s)).
-  Hypothesis Hb64 : forall b, G (ROk (q :: lf_base64 L b ++ [q])).
-  Hypothesis Htime : forall x,
-    G (match f with
+  (* The property that is established: G env t v r relates the value v of dynamic type t
+     (met inside the composites env) with the result r of showing it; Gat does the same for a
+     position of static type tc (an interface position holds the nil interface or a dynamic
+     value). The hypotheses say that G holds of the leaves and is preserved by the array,
+     pointer, object constructions. *)
+  Variable G : list ty -> ty -> value -> result -> Prop.
+  Variable Gat : list ty -> ty -> value -> result -> Prop.
+
+  Hypothesis Hat_nil : forall env tc e' t',
+    resolve env tc = Some (e', t') -> is_iface t' = true -> Gat env tc VNil (ROk s_null).
+  Hypothesis Hat_iface : forall env tc e' t' d x r,
+    resolve env tc = Some (e', t') -> is_iface t' = true -> is_iface d = false -> is_rec d = false ->
+    G [] d x r -> Gat env tc (VIface d x) r.
+  Hypothesis Hat_plain : forall env tc e' t' x r,
+    resolve env tc = Some (e', t') -> is_iface t' = false -> G e' t' x r -> Gat env tc x r.
+
+  Hypothesis Hbool : forall env t (b : bool), head_case f t = HPlain -> G env t (VBool b) (ROk (if b then s_true else s_false)).
+  Hypothesis HZ : forall env t z, head_case f t = HPlain -> G env t (VInt z) (ROk (dec_of_Z z)).
+  Hypothesis HN : forall env t n, head_case f t = HPlain -> G env t (VUint n) (ROk (dec_of_N n)).
+  Hypothesis Hfloat : forall env t x, head_case f t = HPlain -> G env t (VFloat x) (ROk (lf_float L (kind_of t) x)).
+  Hypothesis Hstr : forall env t s, head_case f t = HPlain -> G env t (VStr s) (ROk (quoted L f s)).
+  Hypothesis Hb64 : forall env t b, head_case f t = HPlain -> G env t (VBytes b) (ROk (q :: lf_base64 L b ++ [q])).
+  Hypothesis Hnilref : forall env t, head_case f t = HPlain -> G env t VNilRef (ROk s_null).
+  Hypothesis Herr : forall env t v, head_case f t = HError -> G env t v (ROk (quoted L f (lf_error_text L t v))).
+  Hypothesis Htime : forall env t x, head_case f t = HTime ->
+    G env t (VTime x)
+      (match f with
        | FJS => match lf_time_js L x with Some b => ROk b | None => RPanic end
        | FJSON => ROk (q :: lf_time_json L x ++ [q])
        end).
-  Hypothesis Htrusted : forall c t v, G (ROk (lf_trusted L f c t v)).
-  Hypothesis Harray : forall rs, Forall G rs -> G (array_lit rs).
-  Hypothesis Hobject : forall ms, Forall (fun m : bytes * result => G (snd m)) ms -> G (object_lit L f ms).
-
-  Ltac gleaf := solve [apply Hnull | apply Hbool | apply HZ | apply HN | apply Hfloat | apply Hquoted | apply Hb64 | apply Htrusted].
+  Hypothesis Htrusted : forall env t v c, head_case f t = HTrusted c -> G env t v (ROk (lf_trusted L f c t v)).
+  Hypothesis Harray : forall env t e xs,
+    head_case f t = HPlain -> (exists fl, t = TSlice fl e \/ t = TArr fl e) ->
+    (forall x, In x xs -> Gat (t :: env) e x (show_at_with f (show_val L f) (t :: env) e x)) ->
+    G env t (VSeq xs) (array_lit (map (show_at_with f (show_val L f) (t :: env) e) xs)).
+  Hypothesis Hptr : forall env fl e x,
+    head_case f (TPtr fl e) = HPlain ->
+    Gat (TPtr fl e :: env) e x (show_at_with f (show_val L f) (TPtr fl e :: env) e x) ->
+    G env (TPtr fl e) (VPtr x) (show_at_with f (show_val L f) (TPtr fl e :: env) e x).
+  Hypothesis Hstruct : forall env fl fs vs,
+    head_case f (TStruct fl fs) = HPlain ->
+    Forall2 (fun (p : finfo * ty) (fv : value) =>
+               at_of env (TStruct fl fs) (snd p) fv = true /\
+               (forall e' t', resolve (TStruct fl fs :: env) (snd p) = Some (e', t') -> wf_tyb t' = true) /\
+               (f_exported (fst p) = true ->
+                Gat (TStruct fl fs :: env) (snd p) fv (show_at_with f (show_val L f) (TStruct fl fs :: env) (snd p) fv))) fs vs ->
+    G env (TStruct fl fs) (VStruct vs)
+      (match struct_members (fun fi ft fv =>
+               field_member L fi (match resolve (TStruct fl fs :: env) ft with Some (_, t') => Some t' | None => None end) fv
+                            (show_at_with f (show_val L f) (TStruct fl fs :: env) ft fv)) fs vs with
+       | Some ms => object_lit L f ms
+       | None => RStuck
+       end).
+  Hypothesis Hmap : forall env fl tk te kvs,
+    head_case f (TMap fl tk te) = HPlain ->
+    (forall kx, In kx kvs -> exists b, key_at L f (TMap fl tk te :: env) tk (fst kx) = ROk b) ->
+    (forall kx : value * value, In kx kvs ->
+       Gat (TMap fl tk te :: env) te (snd kx) (show_at_with f (show_val L f) (TMap fl tk te :: env) te (snd kx))) ->
+    G env (TMap fl tk te) (VMap kvs)
+      (object_lit L f (sort_kv (map (fun kr : result * result => (key_of (fst kr), snd kr))
+         (map (fun kx : value * value => (key_at L f (TMap fl tk te :: env) tk (fst kx),
+                                          show_at_with f (show_val L f) (TMap fl tk te :: env) te (snd kx))) kvs)))).
 
   Definition P (n : nat) : Prop :=
     forall v env t, (vsize v < n)%nat ->
       is_rec t = false -> is_iface t = false -> wf_tyb t = true -> env_ok f env ->
       static_rec f env t = OOk -> has_typeb env t v = true -> boxed_okb f v = true ->
-      G (show_val L f env t v).
+      G env t v (show_val L f env t v).
 
   (* a position of static type tc inside a composite (environment env') *)
   Lemma show_at_good n env' tc x :
@@ -500,75 +594,57 @@ Section Main.
     (is_rec tc = true \/ static_rec f env' tc = OOk) ->
     match resolve env' tc with Some (e', t') => has_typeb e' t' x | None => false end = true ->
     boxed_okb f x = true -> (vsize x < n)%nat ->
-    G (show_at_with f (show_val L f) env' tc x).
+    Gat env' tc x (show_at_with f (show_val L f) env' tc x).
   Proof.
     intros HP He Hw Hst Hty Hbox Hsz. unfold show_at_with.
     destruct (resolve env' tc) as [[e' t'] |] eqn:R; [| discriminate Hty].
     destruct (resolve_facts f _ _ _ _ He Hw R) as [Hr' [Hw' [He' Hcase]]].
     destruct (is_iface t') eqn:Hi.
     - (* an interface position: the dynamic value *)
+      pose proof Hi as Hi0.
       destruct t'; try (vm_compute in Hi; discriminate Hi). unfold is_iface in Hi. cbn [kind_of] in Hi.
       destruct x; cbn [has_typeb] in Hty; apply andb_true_iff in Hty; destruct Hty as [_ Hty]; rewrite Hi in Hty; try discriminate Hty.
-      + rewrite show_nil_eq. apply Hnull.
+      + rewrite show_nil_eq. apply (Hat_nil _ _ _ _ R Hi0).
       + repeat (apply andb_true_iff in Hty; destruct Hty as [Hty ?Hc]).
         apply negb_true_iff in Hty. apply negb_true_iff in Hc3. rewrite Hty, Hc3. cbn [orb].
         cbn [boxed_okb] in Hbox. apply andb_true_iff in Hbox. destruct Hbox as [Hb1 Hb2]. apply outcome_eqb_eq in Hb1.
+        apply (Hat_iface _ _ _ _ _ _ _ R Hi0 Hty Hc3).
         apply HP; try assumption; [cbn [vsize] in Hsz; lia | apply env_ok_nil].
-    - destruct Hcase as [[Hrc [_ Hs']] | [Hrc [Ee Et]]].
+    - apply (Hat_plain _ _ _ _ _ _ R Hi).
+      destruct Hcase as [[Hrc [_ Hs']] | [Hrc [Ee Et]]].
       + apply HP; assumption.
       + subst e' t'. destruct Hst as [Hst | Hst]; [rewrite Hst in Hrc; discriminate Hrc |].
         apply HP; assumption.
   Qed.
 
-  (* the members written for a struct whose loop over the fields completed *)
-  Lemma struct_good n env t :
+  (* the facts about the fields of a struct whose loop over the fields completed *)
+  Lemma struct_fields_rel n env t :
     P n -> env_ok f (t :: env) ->
     forall fs vs,
       forallb (fun p : finfo * ty => wf_tyb (snd p)) fs = true ->
       fields_exit (fun fi ft => eval_tree (field_val f fi (static_rec f (t :: env) ft)) (field_tree f)) fs = None ->
       typed_fields (at_of env t) fs vs = true ->
       forallb (boxed_okb f) vs = true -> (list_sum (map vsize vs) < n)%nat ->
-      exists ms,
-        struct_members (fun fi ft fv =>
-          field_member L fi (match resolve (t :: env) ft with Some (_, t') => Some t' | None => None end) fv
-                       (show_at_with f (show_val L f) (t :: env) ft fv)) fs vs = Some ms /\
-        Forall (fun m : bytes * result => G (snd m)) ms.
+      Forall2 (fun (p : finfo * ty) (fv : value) =>
+                 at_of env t (snd p) fv = true /\
+                 (forall e' t', resolve (t :: env) (snd p) = Some (e', t') -> wf_tyb t' = true) /\
+                 (f_exported (fst p) = true -> Gat (t :: env) (snd p) fv (show_at_with f (show_val L f) (t :: env) (snd p) fv))) fs vs.
   Proof.
     intros HP He fs. induction fs as [| [fi ft] fs' IH]; intros vs Hw Hex Hty Hbox Hsz; destruct vs as [| fv vs']; cbn [typed_fields] in Hty; try discriminate Hty.
-    - exists []. split; [reflexivity | constructor].
+    - constructor.
     - cbn [forallb snd] in Hw. apply andb_true_iff in Hw. destruct Hw as [Hw1 Hw2].
       cbn [fields_exit] in Hex.
       destruct (eval_tree (field_val f fi (static_rec f (t :: env) ft)) (field_tree f)) eqn:Echk; try discriminate Hex.
       apply andb_true_iff in Hty. destruct Hty as [Hty1 Hty2].
       cbn [forallb] in Hbox. apply andb_true_iff in Hbox. destruct Hbox as [Hb1 Hb2].
       simpl in Hsz.
-      destruct (IH vs' Hw2 Hex Hty2 Hb2 ltac:(lia)) as [ms [Hms Hgood]].
-      cbn [struct_members]. fold (struct_members (fun fi ft fv =>
-          field_member L fi (match resolve (t :: env) ft with Some (_, t') => Some t' | None => None end) fv
-                       (show_at_with f (show_val L f) (t :: env) ft fv))) in *.
-      rewrite Hms.
-      unfold field_member. destruct (f_exported fi) eqn:Hexp; [| exists ms; split; [reflexivity | exact Hgood]].
-      assert (Hshown : G (show_at_with f (show_val L f) (t :: env) ft fv)).
-      { pose proof (field_facts f fi (static_rec f (t :: env) ft)) as [_ Hc]. cbv zeta in Hc.
+      constructor; [| apply IH; try assumption; lia].
+      cbn [fst snd]. split; [exact Hty1 |]. split.
+      + intros e' t' R. destruct (resolve_facts f _ _ _ _ He Hw1 R) as [_ [Hw' _]]. exact Hw'.
+      + intro Hexp.
+        pose proof (field_facts f fi (static_rec f (t :: env) ft)) as [_ Hc]. cbv zeta in Hc.
         specialize (Hc Echk Hexp).
-        apply (show_at_good n); try assumption; [right; exact Hc | lia]. }
-      destruct (f_tag fi) as [| c tag]; [eexists; split; [reflexivity | constructor; [exact Hshown | exact Hgood]] |].
-      destruct (bytes_eqb (c :: tag) [45]); [exists ms; split; [reflexivity | exact Hgood] |].
-      destruct (parse_tag (c :: tag)) as [tname omit].
-      destruct omit; [| eexists; split; [reflexivity | constructor; [exact Hshown | exact Hgood]]].
-      unfold at_of in Hty1. destruct (resolve (t :: env) ft) as [[e' t'] |] eqn:R; [| discriminate Hty1].
-      destruct (resolve_facts f _ _ _ _ He Hw1 R) as [_ [Hw' _]].
-      pose proof (is_empty_some L e' t' fv Hty1 Hw') as Hne.
-      destruct (is_empty L t' fv) as [[|] |]; [exists ms; split; [reflexivity | exact Hgood] | | contradiction].
-      eexists; split; [reflexivity | constructor; [exact Hshown | exact Hgood]].
-  Qed.
-
-  Lemma Forall_map_good {A} (g : A -> result) xs :
-    (forall x, In x xs -> G (g x)) -> Forall G (map g xs).
-  Proof.
-    intro H. induction xs as [| x xs IH]; simpl; constructor.
-    - apply H. left. reflexivity.
-    - apply IH. intros y Hy. apply H. right. exact Hy.
+        apply (show_at_good n); try assumption; [right; exact Hc | lia].
   Qed.
 
   Lemma keykind_lt env t : wf_tyb t = true -> env_ok f (t :: env) -> keykind env t < n_kinds.
@@ -579,7 +655,8 @@ Section Main.
     destruct (resolve_facts f _ _ _ _ He Hw1 R) as [Hr' [Hw' _]]. apply kind_lt_of_wf; assumption.
   Qed.
 
-  Ltac req_false H := exfalso; vm_compute in H; discriminate H.
+  Ltac gleaf Hp := solve [apply Hbool; exact Hp | apply HZ; exact Hp | apply HN; exact Hp | apply Hfloat; exact Hp
+                         | apply Hstr; exact Hp | apply Hb64; exact Hp | apply Hnilref; exact Hp].
 
   Theorem show_val_good : forall n, P n.
   Proof.
@@ -594,35 +671,38 @@ Section Main.
     destruct (eval_tree (dyn_val false (Some t)) (tree_assoc (show_tbl f) (kind_of t))) as [ | | | | | g | c str | c | ] eqn:Eo; try discriminate HQ.
     - (* the kind switch *)
       destruct str.
-      + rewrite HQ. apply Hquoted.
-      + unfold class_req in HQ.
+      + apply andb_true_iff in HQ. destruct HQ as [HQ Hhd]. rewrite HQ. apply Herr. apply (head_is_sound f t sd _ Hsd Hhd).
+      + apply andb_true_iff in HQ. destruct HQ as [HQ Hhd].
+        pose proof (head_is_sound f t sd _ Hsd Hhd) as Hp. clear Hhd.
+        unfold class_req in HQ.
         destruct (c =? k_Bool) eqn:E1.
         { apply N.eqb_eq in HQ. destruct t; try (vm_compute in HQ; discriminate HQ). cbn [kind_of] in HQ. subst k.
           pose proof (typed_leaf env k_Bool fl v ltac:(vm_compute; reflexivity) Hty) as Hsh.
-          destruct v; try gleaf; try contradiction; try discriminate Hsh; try (vm_compute in Hsh; discriminate Hsh);
+          destruct v; try gleaf Hp; try contradiction; try discriminate Hsh; try (vm_compute in Hsh; discriminate Hsh);
             repeat (destruct Hsh as [Hsh | Hsh]; try discriminate Hsh). }
         destruct (c =? k_Int) eqn:E2.
         { destruct t; try (vm_compute in HQ; discriminate HQ). cbn [kind_of wf_tyb] in *. apply N.ltb_lt in Hw.
           pose proof (typed_leaf env _ fl v Hw Hty) as Hsh.
           enum_kind k Hw; try (vm_compute in HQ; discriminate HQ);
-            destruct v; try gleaf; exfalso; vm_compute in Hsh; try contradiction; try discriminate Hsh;
+            destruct v; try gleaf Hp; exfalso; vm_compute in Hsh; try contradiction; try discriminate Hsh;
             repeat (destruct Hsh as [Hsh | Hsh]; try discriminate Hsh). }
         destruct (c =? k_Uint) eqn:E3.
         { destruct t; try (vm_compute in HQ; discriminate HQ). cbn [kind_of wf_tyb] in *. apply N.ltb_lt in Hw.
           pose proof (typed_leaf env _ fl v Hw Hty) as Hsh.
           enum_kind k Hw; try (vm_compute in HQ; discriminate HQ);
-            destruct v; try gleaf; exfalso; vm_compute in Hsh; try contradiction; try discriminate Hsh;
+            destruct v; try gleaf Hp; exfalso; vm_compute in Hsh; try contradiction; try discriminate Hsh;
             repeat (destruct Hsh as [Hsh | Hsh]; try discriminate Hsh). }
         destruct ((c =? k_Float32) || (c =? k_Float64)) eqn:E4.
-        { destruct t; try (vm_compute in HQ; discriminate HQ). cbn [kind_of wf_tyb] in *. apply N.ltb_lt in Hw.
+        { apply N.eqb_eq in HQ. subst c.
+          destruct t; try (vm_compute in E4; discriminate E4). cbn [kind_of wf_tyb] in *. apply N.ltb_lt in Hw.
           pose proof (typed_leaf env _ fl v Hw Hty) as Hsh.
-          enum_kind k Hw; try (vm_compute in HQ; discriminate HQ);
-            destruct v; try gleaf; exfalso; vm_compute in Hsh; try contradiction; try discriminate Hsh;
+          enum_kind k Hw; try (vm_compute in E4; discriminate E4);
+            destruct v; try gleaf Hp; exfalso; vm_compute in Hsh; try contradiction; try discriminate Hsh;
             repeat (destruct Hsh as [Hsh | Hsh]; try discriminate Hsh). }
         destruct (c =? k_String) eqn:E5.
         { apply N.eqb_eq in HQ. destruct t; try (vm_compute in HQ; discriminate HQ). cbn [kind_of] in HQ. subst k.
           pose proof (typed_leaf env k_String fl v ltac:(vm_compute; reflexivity) Hty) as Hsh.
-          destruct v; try gleaf; try contradiction; try discriminate Hsh; try (vm_compute in Hsh; discriminate Hsh);
+          destruct v; try gleaf Hp; try contradiction; try discriminate Hsh; try (vm_compute in Hsh; discriminate Hsh);
             repeat (destruct Hsh as [Hsh | Hsh]; try discriminate Hsh). }
         destruct (c =? k_Slice) eqn:E6.
         { apply andb_true_iff in HQ. destruct HQ as [Hk Helem].
@@ -633,8 +713,8 @@ Section Main.
           assert (Hff : showfn_eqb f f = true) by (destruct f; reflexivity). rewrite Hff, Hrelem in Hv.
           assert (Hse : static_rec f (TSlice fl t :: env) t = OOk) by (destruct (static_rec f (TSlice fl t :: env) t); try discriminate Hv; reflexivity).
           destruct v; cbn [has_typeb] in Hty; apply andb_true_iff in Hty; destruct Hty as [_ Hty];
-            destruct (flag (TSlice fl t) w_ByteSlice) eqn:Fb; try discriminate Hty; try gleaf.
-          cbn [kids_of]. apply Harray. apply Forall_map_good. intros x Hx.
+            destruct (flag (TSlice fl t) w_ByteSlice) eqn:Fb; try discriminate Hty; try gleaf Hp.
+          cbn [kids_of]. apply (Harray env (TSlice fl t) t xs Hp); [exists fl; left; reflexivity |]. intros x Hx.
           rewrite forallb_forall in Hty. cbn [boxed_okb] in Hbox. rewrite forallb_forall in Hbox.
           apply (show_at_good n); try assumption;
             try solve [cbn [wf_tyb] in Hw; exact Hw | right; exact Hse | apply (Hty x Hx) | apply (Hbox x Hx)
@@ -648,7 +728,7 @@ Section Main.
           assert (Hff : showfn_eqb f f = true) by (destruct f; reflexivity). rewrite Hff, Hrelem in Hv.
           assert (Hse : static_rec f (TArr fl t :: env) t = OOk) by (destruct (static_rec f (TArr fl t :: env) t); try discriminate Hv; reflexivity).
           destruct v; cbn [has_typeb] in Hty; apply andb_true_iff in Hty; destruct Hty as [_ Hty]; try discriminate Hty.
-          cbn [kids_of]. apply Harray. apply Forall_map_good. intros x Hx.
+          cbn [kids_of]. apply (Harray env (TArr fl t) t xs Hp); [exists fl; right; reflexivity |]. intros x Hx.
           rewrite forallb_forall in Hty. cbn [boxed_okb] in Hbox. rewrite forallb_forall in Hbox.
           apply (show_at_good n); try assumption;
             try solve [cbn [wf_tyb] in Hw; exact Hw | right; exact Hse | apply (Hty x Hx) | apply (Hbox x Hx)
@@ -661,8 +741,8 @@ Section Main.
           pose proof (asg_true_sound _ _ _ Hss Helem) as Hv. cbn [static_val] in Hv.
           assert (Hff : showfn_eqb f f = true) by (destruct f; reflexivity). rewrite Hff, Hrelem in Hv.
           assert (Hse : static_rec f (TPtr fl t :: env) t = OOk) by (destruct (static_rec f (TPtr fl t :: env) t); try discriminate Hv; reflexivity).
-          destruct v; cbn [has_typeb] in Hty; apply andb_true_iff in Hty; destruct Hty as [_ Hty]; try discriminate Hty; try gleaf.
-          cbn [kids_of]. cbn [boxed_okb] in Hbox.
+          destruct v; cbn [has_typeb] in Hty; apply andb_true_iff in Hty; destruct Hty as [_ Hty]; try discriminate Hty; try gleaf Hp.
+          cbn [kids_of]. cbn [boxed_okb] in Hbox. apply (Hptr env fl t v Hp).
           apply (show_at_good n); try assumption;
             try solve [cbn [wf_tyb] in Hw; exact Hw | right; exact Hse | cbn [vsize] in Hsz; lia]. }
         destruct (c =? k_Struct) eqn:E9.
@@ -675,8 +755,8 @@ Section Main.
           assert (Hft : flag (TStruct fl fs) w_Time = false) by (destruct (flag (TStruct fl fs) w_Time); [discriminate Hv2 | reflexivity]).
           destruct v; cbn [has_typeb] in Hty; apply andb_true_iff in Hty; destruct Hty as [_ Hty]; rewrite Hft in Hty; try discriminate Hty.
           cbn [kids_of]. cbn [boxed_okb] in Hbox. cbn [wf_tyb] in Hw. cbn [vsize] in Hsz.
-          destruct (struct_good n env (TStruct fl fs) IHn He' fs fs0 Hw Hloop Hty Hbox ltac:(lia)) as [ms [Hms Hgood]].
-          rewrite Hms. apply Hobject. exact Hgood. }
+          apply (Hstruct env fl fs fs0 Hp).
+          apply (struct_fields_rel n env (TStruct fl fs) IHn He' fs fs0 Hw Hloop Hty Hbox ltac:(lia)). }
         destruct (c =? k_Map) eqn:E10; [| discriminate HQ].
         { apply andb_true_iff in HQ. destruct HQ as [HQ Hkey]. apply andb_true_iff in HQ. destruct HQ as [Hk Helem].
           pose proof (typed_composite_kind env t v Hty) as Hck.
@@ -686,41 +766,75 @@ Section Main.
           assert (Hff : showfn_eqb f f = true) by (destruct f; reflexivity). rewrite Hff, Hrelem in Hv.
           assert (Hse : static_rec f (TMap fl t1 t2 :: env) t2 = OOk) by (destruct (static_rec f (TMap fl t1 t2 :: env) t2); try discriminate Hv; reflexivity).
           cbn [wf_tyb] in Hw. apply andb_true_iff in Hw. destruct Hw as [Hw1 Hw2].
-          destruct v; cbn [has_typeb] in Hty; apply andb_true_iff in Hty; destruct Hty as [_ Hty]; try discriminate Hty; try gleaf.
+          destruct v; cbn [has_typeb] in Hty; apply andb_true_iff in Hty; destruct Hty as [_ Hty]; try discriminate Hty; try gleaf Hp.
           cbn [kids_of]. cbn [boxed_okb] in Hbox. rewrite forallb_forall in Hty, Hbox. cbn [vsize] in Hsz.
           set (kf := fun kx : value * value => (key_at L f (TMap fl t1 t2 :: env) t1 (fst kx), show_at_with f (show_val L f) (TMap fl t1 t2 :: env) t2 (snd kx))).
-          assert (Hkeys : forall kx, In kx kvs -> exists b, fst (kf kx) = ROk b).
+          assert (Hkeys : forall kx, In kx kvs -> exists b, key_at L f (TMap fl t1 t2 :: env) t1 (fst kx) = ROk b).
           { intros kx Hin. specialize (Hty kx Hin). apply andb_true_iff in Hty. destruct Hty as [Hty1 _].
-            unfold kf. cbn [fst]. apply (key_at_ok L f env fl t1 t2 relem loop ss (fst kx) Hss Hkey Hw1 He' Hty1). }
-          assert (Hvals : forall kx, In kx kvs -> G (snd (kf kx))).
+            apply (key_at_ok L f env fl t1 t2 relem loop ss (fst kx) Hss Hkey Hw1 He' Hty1). }
+          assert (Hvals : forall kx, In kx kvs -> Gat (TMap fl t1 t2 :: env) t2 (snd kx) (show_at_with f (show_val L f) (TMap fl t1 t2 :: env) t2 (snd kx))).
           { intros kx Hin. specialize (Hty kx Hin). apply andb_true_iff in Hty. destruct Hty as [_ Hty2].
-            unfold kf. cbn [snd]. apply (show_at_good n); try assumption;
+            apply (show_at_good n); try assumption;
               try solve [right; exact Hse | apply (Hbox kx Hin)
                         | pose proof (in_list_sum (fun kx : value * value => (vsize (fst kx) + vsize (snd kx))%nat) kx kvs Hin) as Hle; cbv beta in Hle; lia]. }
           assert (Hfk : first_key_error (map fst (map kf kvs)) = None).
-          { clear - Hkeys. induction kvs as [| kx r IH]; [reflexivity |]. cbn [map first_key_error].
+          { clear - Hkeys. induction kvs as [| kx r IH]; [reflexivity |]. cbn [map first_key_error]. unfold kf at 1. cbn [fst].
             destruct (Hkeys kx (or_introl eq_refl)) as [b Hb]. rewrite Hb. apply IH. intros y Hy. apply Hkeys. right. exact Hy. }
-          rewrite Hfk. apply Hobject. apply sort_kv_Forall.
-          clear - Hvals. induction kvs as [| kx r IH]; [constructor |]. cbn [map]. constructor.
-          - cbn [snd]. apply Hvals. left. reflexivity.
-          - apply IH. intros y Hy. apply Hvals. right. exact Hy. }
+          rewrite Hfk. apply (Hmap env fl t1 t2 kvs Hp Hkeys Hvals). }
     - (* the leading type switch *)
-      apply andb_true_iff in HQ. destruct HQ as [Hc1 Hc2].
+      apply andb_true_iff in HQ. destruct HQ as [HQ Hhd]. apply andb_true_iff in HQ. destruct HQ as [Hc1 Hc2].
+      pose proof (head_is_sound f t sd _ Hsd Hhd) as Hp. clear Hhd.
       destruct (c =? w_Time) eqn:Et.
       + cbn [negb orb] in Hc2. pose proof (asg_true_sound _ _ _ Hsd Hc2) as Hv. cbn [dyn_val] in Hv.
         assert (Hft : flag t w_Time = true) by (destruct (flag t w_Time); [reflexivity | discriminate Hv]).
         destruct v; cbn [has_typeb] in Hty; apply andb_true_iff in Hty; destruct Hty as [Hwf Hty];
           unfold wf_flags in Hwf; rewrite Hft in Hwf; cbn [negb orb] in Hwf; apply andb_true_iff in Hwf; destruct Hwf as [Hwf _];
           destruct t; try discriminate Hwf; rewrite Hft in Hty; try discriminate Hty.
-        apply (Htime x).
-      + apply negb_true_iff in Hc1. rewrite Hc1. apply Htrusted.
+        apply (Htime env _ x Hp).
+      + apply negb_true_iff in Hc1. rewrite Hc1. apply (Htrusted env t v c Hp).
   Qed.
 End Main.
 
+(* ---- instance: a result predicate that does not look at the value ---- *)
+
+Section Plain.
+  Variable L : leaves.
+  Variable f : showfn.
+  Variable G0 : result -> Prop.
+  Hypothesis Hnull : G0 (ROk s_null).
+  Hypothesis Hbool : forall b : bool, G0 (ROk (if b then s_true else s_false)).
+  Hypothesis HZ : forall z, G0 (ROk (dec_of_Z z)).
+  Hypothesis HN : forall n, G0 (ROk (dec_of_N n)).
+  Hypothesis Hfloat : forall c x, G0 (ROk (lf_float L c x)).
+  Hypothesis Hquoted : forall s, G0 (ROk (quoted L f s)).
+  Hypothesis Hb64 : forall b, G0 (ROk (q :: lf_base64 L b ++ [q])).
+  Hypothesis Htime : forall x,
+    G0 (match f with
+        | FJS => match lf_time_js L x with Some b => ROk b | None => RPanic end
+        | FJSON => ROk (q :: lf_time_json L x ++ [q])
+        end).
+  Hypothesis Htrusted : forall c t v, G0 (ROk (lf_trusted L f c t v)).
+  Hypothesis Harray : forall rs, Forall G0 rs -> G0 (array_lit rs).
+  Hypothesis Hobject : forall ms, Forall (fun m : bytes * result => G0 (snd m)) ms -> G0 (object_lit L f ms).
+
+  Theorem show_val_plain : forall n, P L f (fun _ _ _ r => G0 r) n.
+  Proof.
+    apply (show_val_good L f (fun _ _ _ r => G0 r) (fun _ _ _ r => G0 r)); intros; try (solve [auto]).
+    - (* array *) apply Harray. apply Forall_forall. intros r Hr. apply in_map_iff in Hr. destruct Hr as [x [Hx Hin]]. subst r. auto.
+    - (* struct *)
+      match goal with H : Forall2 _ _ _ |- _ => destruct (struct_members_all L f G0 env (TStruct fl fs) fs vs H) as [ms [Hms Hgood]] end.
+      rewrite Hms. apply Hobject. exact Hgood.
+    - (* map *)
+      apply Hobject. apply sort_kv_Forall. apply Forall_forall. intros m Hm.
+      apply in_map_iff in Hm. destruct Hm as [kr [Hkr Hin]]. subst m. cbn [snd].
+      apply in_map_iff in Hin. destruct Hin as [kx [Hkx Hin]]. subst kr. cbn [snd]. auto.
+  Qed.
+End Plain.
+
 (* C09: nothing but `not a cannot show error and the model applies` *)
-Theorem show_val_good' L f : forall n, P L f good n.
+Theorem show_val_good' L f : forall n, P L f (fun _ _ _ r => good r) n.
 Proof.
-  apply show_val_good; intros; try apply good_ok.
+  apply show_val_plain; intros; try apply good_ok.
   - destruct f; [destruct (lf_time_js L x); [apply good_ok | apply good_panic] | apply good_ok].
   - apply array_lit_good. assumption.
   - apply object_lit_good. assumption.
